@@ -220,8 +220,8 @@ var transformations = []string{"crlf", "lf", "indent-none", "indent-tab", "inden
 
 // Comment texts beyond the plain `/* c */` and `// c`: a comment's text is arbitrary up to its first
 // terminator (a slash right after the opener, quotes, nested openers, the other comment's markers).
-var blockBodies = []string{"/*/ x */", "/**/", "/***/", "/* // */", "/*\"*/", "/*`*/", "/* /* */", "/*'*/", "/* a\n   b */", "/*\n*/"}
-var lineBodies = []string{" //", " ///", " // \"", " // `", " // /*", " // */", " //'"}
+var blockBodies = []string{"/*/ x */", "/**/", "/***/", "/* // */", "/*\"*/", "/*`*/", "/* /* */", "/*'*/", "/* a\n   b */", "/*\n*/", "/* é ü */", "/*€*/"}
+var lineBodies = []string{" //", " ///", " // \"", " // `", " // /*", " // */", " //'", " // é €"}
 
 func bodyTransformations() []string {
 	var out []string
